@@ -63,6 +63,14 @@ CHECKS.update({
         'note': 'trusted: the linear-scan predicate ref_matches in checks/c08.py; which lines the loader accepted is taken from the loader',
         'technique': 'differential monitor: real lookup vs linear-scan reference over generated sets and insertion orders, under ASan/UBSan',
     },
+    'C13': {
+        'text': 'Worlds of a referenced message, conditions of every shape and conditional messages are loaded and resolved by the real code; '
+                'update histories under a virtual clock (incl. several changes per second) are interleaved with isAvailable()/find() queries '
+                'and compared with a reference predicate on the last stored value; resolution is judged per condition.',
+        'design_ref': 'DESIGN.md section 2, C13',
+        'note': 'trusted: reference predicate cond_true/parse_ranges in checks/c13.py; time() is wrapped (virtual seconds)',
+        'technique': 'history monitor under virtual time: reference predicate on last stored value vs real availability, ASan/UBSan',
+    },
     'C17': {
         'text': 'Histories of getNextPoll interleaved with priority changes, front/back insertion, late-loaded messages, removal and reload; '
                 'an online monitor checks the stride-scheduling waiting bound and proportional shares on perturbation-free windows.',
